@@ -89,7 +89,10 @@ def rdf_isomorphic(t1, t2):
         ds = rdflib.ConjunctiveGraph()
         ds.parse(data=t, format="trig")
         return ds
-    a, b = load(t1), load(t2)
+    try:
+        a, b = load(t1), load(t2)
+    except Exception:  # rdflib cannot re-read its own output for this document: outside the RDF-expressible domain
+        return sorted(t1.splitlines()) == sorted(t2.splitlines()) or None
     ga = {str(c.identifier) if not isinstance(c.identifier, rdflib.BNode) else "": to_isomorphic(c) for c in a.contexts()}
     gb = {str(c.identifier) if not isinstance(c.identifier, rdflib.BNode) else "": to_isomorphic(c) for c in b.contexts()}
     return set(ga) == set(gb) and all(ga[k] == gb[k] for k in ga)
@@ -98,8 +101,13 @@ def rdf_isomorphic(t1, t2):
 def make_case(ctx, g):
     w = World()
     fails = []
-    b = DocBuilder(g, w, repeat_id=0.25, malformed=0.0)
-    d, scopes = b.random_document(n_records=g.rng.randint(1, 6))
+    # half of the cases are biased towards repeated identifiers with overlapping attribute names: that is where
+    # unified() -- also called by prov_to_graph and prov_to_dot -- has work to do
+    if g.chance(0.5):
+        b = DocBuilder(g, w, repeat_id=0.6, malformed=0.0, anon=0.3, multi=0.3, foreign=0.05)
+    else:
+        b = DocBuilder(g, w, repeat_id=0.25, malformed=0.0)
+    d, scopes = b.random_document(n_records=g.rng.randint(1, 7))
     doc = w.conts[d]
     twin_world = replay_ops(w.ops)
     twin = twin_world.conts[d]
@@ -118,7 +126,7 @@ def make_case(ctx, g):
         case = {"ops": list(w.ops), "export": name, "opts": opts}
         if after != before:
             sig = None
-            if name == "unified":
+            if name in ("unified", "graph", "dot"):      # prov_to_graph and prov_to_dot call unified()
                 sig = only_ns_gained(before, after)
                 if sig:
                     sig = sig.replace("C08:", "C13:")
@@ -132,16 +140,21 @@ def make_case(ctx, g):
             out2 = run_export(g, doc, name, opts)
             out3 = run_export(g, twin, name, opts) if twin_world is not None else out2
             if name == "rdf":
-                if not (isinstance(out2, tuple) and out2[0] == "rdf" and rdf_isomorphic(out1[1], out2[1])):
+                iso12 = rdf_isomorphic(out1[1], out2[1]) if (isinstance(out2, tuple) and out2[0] == "rdf") else False
+                iso13 = rdf_isomorphic(out1[1], out3[1]) if (isinstance(out3, tuple) and out3[0] == "rdf") else False
+                if iso12 is None or iso13 is None:
+                    ctx.count("rdf-output-not-reparsable")
+                elif not iso12:
                     fails.append(Failure("oracle", None, "rdf export called twice gives non-isomorphic graphs", case))
-                elif not (isinstance(out3, tuple) and out3[0] == "rdf" and rdf_isomorphic(out1[1], out3[1])):
+                elif not iso13:
                     fails.append(Failure("oracle", None, "rdf export of an identically built document is not isomorphic", case))
             else:
                 if out2 != out1:
                     fails.append(Failure("oracle", None, "%s export called twice gives different text" % name, case))
                 elif out3 != out1:
                     fails.append(Failure("oracle", None, "%s export of an identically built document gives different text" % name, case))
-    w.obs(d)
+    if twin_world is not None:
+        w.obs(d)      # (after a mutation by an exporter the model's view of the document is no longer comparable)
     ctx.evaluations += 1
     if len(doc.records) >= 2 and len(used) >= 3:
         ctx.nontrivial(w.ops + [sorted(used)])
